@@ -38,18 +38,35 @@ def conc_run(ctx, spec, flavor='rel', features=(), **kw):
     return ctx.add(tag(r, flavor=flavor, features=features))
 
 
+W = 'cs_warm'
 SPECS = {
-    'a_fast': {'name': 'a_fast', 'setup': 'cs_setup1', 'threads': [('cs_warm', 'cs_r_load'), ('cs_warm', 'cs_w_store1')],
+    # --- one container, reader || writer
+    'a_fast': {'name': 'a_fast', 'setup': 'cs_setup1', 'threads': [(W, 'cs_r_load'), (W, 'cs_w_store1')],
                'final': 'cs_final1', 'covers': [11, 13]},
-    'a_full': {'name': 'a_full', 'setup': 'cs_setup1', 'threads': [('cs_warm', 'cs_r_load_full'), ('cs_warm', 'cs_w_store1')],
+    'a_full': {'name': 'a_full', 'setup': 'cs_setup1', 'threads': [(W, 'cs_r_load_full'), (W, 'cs_w_store1')],
                'final': 'cs_final1', 'covers': [13]},
-    'b_fallback': {'name': 'b_fallback', 'setup': 'cs_setup1',
-                   'threads': [('cs_fill8_t1', 'cs_r_fallback'), ('cs_warm', 'cs_w_store1')],
-                   'final': 'cs_final1_release', 'covers': [13, 14]},
-    'lin2': {'name': 'lin2', 'setup': 'cs_setup1', 'threads': [('cs_warm', 'cs_r_load2'), ('cs_warm', 'cs_w_store12')],
+    'a_keep': {'name': 'a_keep', 'setup': 'cs_setup1', 'threads': [(W, 'cs_r_into_inner_keep'), (W, 'cs_w_store1')],
+               'final': 'cs_final1', 'covers': [13]},
+    # --- reader on the fallback path (8 fast slots taken by guards of container B)
+    'b_fallback': {'name': 'b_fallback', 'setup': 'cs_setup2',
+                   'threads': [('cs_fill8_t1', 'cs_r_fallback'), (W, 'cs_w_store1')],
+                   'final': 'cs_final2_release', 'covers': [13, 14]},
+    # --- reader holds 3 guards of A which the writer has to pay
+    'b_held3': {'name': 'b_held3', 'setup': 'cs_setup1', 'threads': [('cs_fill3a_t1', 'cs_r_load'), (W, 'cs_w_store1')],
+                'final': 'cs_final1_release', 'covers': [13]},
+    # --- linearizability with progress flags
+    'lin1': {'name': 'lin1', 'setup': 'cs_setup1', 'threads': [(W, 'cs_r_load_rt'), (W, 'cs_w_store1')],
+             'final': 'cs_final1', 'covers': [12, 13]},
+    'lin1_fb': {'name': 'lin1_fb', 'setup': 'cs_setup2', 'threads': [('cs_fill8_t1', 'cs_r_load_rt'), (W, 'cs_w_store1')],
+                'final': 'cs_final2_release', 'covers': [12, 13]},
+    'lin2': {'name': 'lin2', 'setup': 'cs_setup1', 'threads': [(W, 'cs_r_load2'), (W, 'cs_w_store12')],
              'final': 'cs_final1', 'covers': [13]},
-    'swap2': {'name': 'swap2', 'setup': 'cs_setup1', 'threads': [('cs_warm', 'cs_w_swap1'), ('cs_warm', 'cs_w_swap2')],
+    # --- two writers
+    'swap2': {'name': 'swap2', 'setup': 'cs_setup1', 'threads': [(W, 'cs_w_swap1'), (W, 'cs_w_swap2')],
               'final': 'cs_final1', 'covers': [13]},
+    # --- two containers: writer of B walks the node of a reader of A which is on the fallback path
+    'iso_b': {'name': 'iso_b', 'setup': 'cs_setup2', 'threads': [('cs_fill8_t1', 'cs_r_fallback'), (W, 'cs_w_store_b3')],
+              'final': 'cs_final2_release', 'covers': [13, 14]},
 }
 
 
